@@ -32,11 +32,39 @@ var ruleExtend = &core.Rule{ID: "R14.1", Min: 6,
 				}
 			}
 		}
+		recv := f.Params[0]
+		// the new node may be built by a constructor helper that receives the same values
+		var ctorCall *ssa.Call
+		var ctor *ssa.Function
+		var ctorAlloc *ssa.Alloc
 		if fresh == nil {
+			for _, ci := range core.Calls(f) {
+				call, ok := ci.(*ssa.Call)
+				if !ok {
+					continue
+				}
+				g := call.Call.StaticCallee()
+				if g == nil || !core.InMod(g) || g.Blocks == nil || g.Signature.Results().Len() != 1 || !cm.isNodePtr(g.Signature.Results().At(0).Type()) {
+					continue
+				}
+				var al *ssa.Alloc
+				okRet := true
+				for _, r := range core.Returns(g) {
+					a, isA := r.Results[0].(*ssa.Alloc)
+					if !isA || (al != nil && al != a) {
+						okRet = false
+					}
+					al = a
+				}
+				if okRet && al != nil && al.Heap {
+					ctorCall, ctor, ctorAlloc = call, g, al
+				}
+			}
+		}
+		if fresh == nil && ctorCall == nil {
 			s.Bad("one new node", c.Pos(f.Pos()), "Extend does not allocate a new node")
 			return
 		}
-		recv := f.Params[0]
 		// field stores of the fresh node
 		want := map[int]string{tm.FMime: "string", tm.FExt: "string", tm.FDet: "func", tm.FAliases: "aliases", tm.FParent: "recv"}
 		got := map[int]ssa.Value{}
@@ -71,7 +99,7 @@ var ruleExtend = &core.Rule{ID: "R14.1", Min: 6,
 					continue
 				}
 				switch {
-				case fa.X == ssa.Value(fresh):
+				case fresh != nil && fa.X == ssa.Value(fresh):
 					got[fa.Field] = st.Val
 				case fa.X == ssa.Value(recv) && fa.Field == tm.FChildren:
 					nChildStores++
@@ -90,7 +118,7 @@ var ruleExtend = &core.Rule{ID: "R14.1", Min: 6,
 										for _, r2 := range *ia.Referrers() {
 											if s2, ok := r2.(*ssa.Store); ok {
 												n++
-												good = s2.Val == ssa.Value(fresh) && core.IsConstInt(ia.Index, 0)
+												good = ((fresh != nil && s2.Val == ssa.Value(fresh)) || (ctorCall != nil && s2.Val == ssa.Value(ctorCall))) && core.IsConstInt(ia.Index, 0)
 											}
 										}
 									}
@@ -124,6 +152,32 @@ var ruleExtend = &core.Rule{ID: "R14.1", Min: 6,
 				}
 			}
 		}
+		if ctor != nil {
+			// translate the constructor's field stores (from its parameters) to Extend's arguments
+			for _, b := range ctor.Blocks {
+				for _, in := range b.Instrs {
+					st, ok := in.(*ssa.Store)
+					if !ok {
+						continue
+					}
+					fa, ok := st.Addr.(*ssa.FieldAddr)
+					if !ok || fa.X != ssa.Value(ctorAlloc) {
+						continue
+					}
+					v := core.Unwrap(st.Val)
+					mapped := false
+					for i, p := range ctor.Params {
+						if v == ssa.Value(p) {
+							got[fa.Field] = ctorCall.Call.Args[i]
+							mapped = true
+						}
+					}
+					if !mapped {
+						got[fa.Field] = st.Val // not a parameter: judged below as "not from Extend's parameters"
+					}
+				}
+			}
+		}
 		s.Check(nChildStores == 1, "one publication", c.Pos(f.Pos()), "1 store to children", fmt.Sprintf("%d stores to the receiver's children", nChildStores))
 		// fields from parameters
 		paramOf := func(v ssa.Value) int {
@@ -139,19 +193,19 @@ var ruleExtend = &core.Rule{ID: "R14.1", Min: 6,
 			key := fmt.Sprintf("new node field #%d (%s)", fld, kind)
 			v, ok := got[fld]
 			if !ok {
-				s.Bad(key, c.Pos(fresh.Pos()), "field of the new node is not set")
+				s.Bad(key, c.Pos(f.Pos()), "field of the new node is not set")
 				continue
 			}
 			pi := paramOf(v)
 			switch kind {
 			case "recv":
-				s.Check(pi == 0, key, c.Pos(fresh.Pos()), "parent = receiver", "the new node's parent is not the node it is registered under: its results would report a wrong ancestor chain")
+				s.Check(pi == 0, key, c.Pos(f.Pos()), "parent = receiver", "the new node's parent is not the node it is registered under: its results would report a wrong ancestor chain")
 			default:
-				s.Check(pi > 0, key, c.Pos(fresh.Pos()), fmt.Sprintf("parameter %d", pi), "a field of the new node is not taken from Extend's parameters")
+				s.Check(pi > 0, key, c.Pos(f.Pos()), fmt.Sprintf("parameter %d", pi), "a field of the new node is not taken from Extend's parameters")
 			}
 		}
 		if _, set := got[tm.FChildren]; set {
-			s.Bad("new node has no children", c.Pos(fresh.Pos()), "Extend pre-populates the children of the new node")
+			s.Bad("new node has no children", c.Pos(f.Pos()), "Extend pre-populates the children of the new node")
 		}
 		// package-level Extend
 		found := false
@@ -191,29 +245,48 @@ var ruleLookup = &core.Rule{ID: "R14.4", Min: 4,
 		}
 		tm := m.tm
 		recv, name := f.Params[0], f.Params[1]
-		// name compared with recv.mime
-		cmpMime := false
-		for _, b := range f.Blocks {
-			for _, in := range b.Instrs {
-				bo, ok := in.(*ssa.BinOp)
-				if !ok || bo.Op != token.EQL {
+		retRecv := func(hit *ssa.BasicBlock) bool {
+			rs := retOf(hit)
+			return rs != nil && rs.Results[0] == ssa.Value(recv)
+		}
+		cmpMime := mimeCompare(m, f, recv, name, retRecv)
+		okAl := aliasScanReturns(m, f, recv, name, retRecv)
+		if !cmpMime || !okAl {
+			// both tests behind one verified helper: if named(recv, name) { return recv }
+			for _, ci := range core.Calls(f) {
+				call, ok := ci.(*ssa.Call)
+				if !ok {
 					continue
 				}
-				for _, pr := range [][2]ssa.Value{{bo.X, bo.Y}, {bo.Y, bo.X}} {
-					if base, fld, ok := core.LoadOfField(pr[0]); ok && fld == tm.FMime && base == ssa.Value(recv) && pr[1] == ssa.Value(name) {
-						// true edge returns recv
-						iff := core.IfOf(bo.Block())
-						if iff != nil && iff.Cond == ssa.Value(bo) {
-							if rs := retOf(bo.Block().Succs[0]); rs != nil && rs.Results[0] == ssa.Value(recv) {
-								cmpMime = true
-							}
-						}
+				h := call.Call.StaticCallee()
+				if h == nil || !core.InMod(h) || h.Blocks == nil || len(call.Call.Args) != 2 || call.Call.Args[0] != ssa.Value(recv) || call.Call.Args[1] != ssa.Value(name) || len(h.Params) != 2 {
+					continue
+				}
+				retTrue := func(hit *ssa.BasicBlock) bool {
+					r := retOf(hit)
+					if r == nil {
+						return false
+					}
+					v, isC := core.ConstBool(r.Results[0])
+					return isC && v
+				}
+				okH := mimeCompare(m, h, h.Params[0], h.Params[1], retTrue) && aliasScanReturns(m, h, h.Params[0], h.Params[1], retTrue)
+				for _, r := range core.Returns(h) {
+					if _, isC := core.ConstBool(r.Results[0]); !isC {
+						okH = false
+					}
+				}
+				if !okH {
+					continue
+				}
+				for _, ref := range *call.Referrers() {
+					if iff, ok := ref.(*ssa.If); ok && retRecv(iff.Block().Succs[0]) {
+						cmpMime, okAl = true, true
 					}
 				}
 			}
 		}
 		s.Check(cmpMime, "name compared with the node's type", c.Pos(f.Pos()), "type == name => node", "lookup does not return the node whose registered type equals the name")
-		// aliases loop
 		var alLoad, chLoad ssa.Value
 		for _, b := range f.Blocks {
 			for _, in := range b.Instrs {
@@ -227,10 +300,6 @@ var ruleLookup = &core.Rule{ID: "R14.4", Min: 4,
 				}
 			}
 		}
-		okAl := aliasScanReturns(m, f, recv, name, func(hit *ssa.BasicBlock) bool {
-			rs := retOf(hit)
-			return rs != nil && rs.Results[0] == ssa.Value(recv)
-		})
 		_ = alLoad
 		s.Check(okAl, "name compared with every alias", c.Pos(f.Pos()), "range over all aliases, equality => node", "lookup does not compare the name with every registered alias of the node")
 		okCh := false
@@ -254,7 +323,7 @@ var ruleLookup = &core.Rule{ID: "R14.4", Min: 4,
 					if bo.Op == token.EQL {
 						hit, miss = miss, hit
 					}
-					if rs := retOf(hit); rs != nil && rs.Results[0] == ssa.Value(call) && miss == r.Header {
+					if rs := retOf(hit); rs != nil && rs.Results[0] == ssa.Value(call) && latchTo(miss, r.Header) {
 						if rd := retOf(r.Done); rd != nil && core.IsNilConst(rd.Results[0]) {
 							okCh = true
 						}
@@ -277,6 +346,49 @@ var ruleLookup = &core.Rule{ID: "R14.4", Min: 4,
 			}
 		}
 	}}
+
+// latchTo: b is the loop header or a latch that only advances the counter and jumps to it.
+func latchTo(b, header *ssa.BasicBlock) bool {
+	if b == header {
+		return true
+	}
+	if len(b.Succs) != 1 || b.Succs[0] != header {
+		return false
+	}
+	for _, in := range b.Instrs {
+		switch x := in.(type) {
+		case *ssa.Jump:
+		case *ssa.BinOp:
+			if x.Op != token.ADD || !core.IsConstInt(x.Y, 1) {
+				return false
+			}
+		default:
+			return false
+		}
+	}
+	return true
+}
+
+// mimeCompare: f tests recv.mime == name and the true edge reaches a block accepted by hitOK.
+func mimeCompare(m *walkModel, f *ssa.Function, recv, name ssa.Value, hitOK func(*ssa.BasicBlock) bool) bool {
+	for _, b := range f.Blocks {
+		for _, in := range b.Instrs {
+			bo, ok := in.(*ssa.BinOp)
+			if !ok || bo.Op != token.EQL {
+				continue
+			}
+			for _, pr := range [][2]ssa.Value{{bo.X, bo.Y}, {bo.Y, bo.X}} {
+				if base, fld, ok := core.LoadOfField(pr[0]); ok && fld == m.tm.FMime && base == recv && pr[1] == name {
+					iff := core.IfOf(bo.Block())
+					if iff != nil && iff.Cond == ssa.Value(bo) && hitOK(bo.Block().Succs[0]) {
+						return true
+					}
+				}
+			}
+		}
+	}
+	return false
+}
 
 // aliasLoopInline: f ranges over every alias of recv and tests each for
 // equality with name; hitOK judges the block reached on a hit; on a miss the
